@@ -45,7 +45,8 @@ pub fn begin() {
     let floor = FLOOR.with(|f| f.get());
     BASE.with(|b| b.set(if floor > now { floor } else { now }));
     ELAPSED_NS.with(|e| e.set(0));
-    ACTIVE.with(|a| a.set(true));
+    // (diagnostic switch: with VERIF_NO_CLOCK_SEAM the monotonic clock of the process is the kernel's again)
+    ACTIVE.with(|a| a.set(std::env::var_os("VERIF_NO_CLOCK_SEAM").is_none()));
 }
 
 pub fn set_elapsed(ns: u64) {
